@@ -278,18 +278,18 @@ PROPS = {
                       "run is not a plain success.",
                  nontrivial=lambda cfg, r: (r["notes"].get("outcome") or ["true"])[0] != "true" or any(
                      j["sched"] and j["timeout"] is not None for j in cfg["jobs"])),
-    "C05": RProp("C05", 2, [51, 52, 41], oracles=['no_start_after_exit'], profile={"crit": 0.6, "exc": 0.5, "window": 0.6, "tie": 0.5, "nested": 0.3, "never": 0.1},
+    "C05": RProp("C05", 2, [51, 52, 41], oracles=['no_start_after_exit', 'jobs_over'], profile={"crit": 0.6, "exc": 0.5, "window": 0.6, "tie": 0.5, "nested": 0.3, "never": 0.1},
                  rule="C05: at the main wake that leaves the loop everything pending must be doomed (cancel requested / "
                       "cancelling), nothing created; no job starts while its scheduler is not in its main loop; verdict "
                       "classification; acceptance up to level 2 (timing: the clock only moves when nothing is unreported). "
                       "Non-trivial = some critical job raises.",
                  nontrivial=lambda cfg, r: any((not j["sched"]) and j["crit"] and j["out"] == "exc" for j in cfg["jobs"])),
-    "C08": RProp("C08", 2, [52, 51, 41], oracles=['no_start_after_exit', 'timeout_effect'], profile={"timeout": 0.8, "root_timeout": 0.7, "never": 0.25, "window": 0.5, "nested": 0.35},
+    "C08": RProp("C08", 2, [52, 51, 41], oracles=['no_start_after_exit', 'timeout_effect', 'jobs_over'], profile={"timeout": 0.8, "root_timeout": 0.7, "never": 0.25, "window": 0.5, "nested": 0.35},
                  rule="C08: expiry takes the timeout path (monitor chk_exit), nothing starts afterwards, timeout verdict; "
                       "acceptance up to level 2 compares the timeout argument of every asyncio.wait call and the instant of "
                       "every clock jump. Non-trivial = some scheduler has a timeout.",
                  nontrivial=lambda cfg, r: any(j["sched"] and j["timeout"] is not None for j in cfg["jobs"])),
-    "C09": RProp("C09", 2, [52, 51, 111, 41], oracles=['no_start_after_exit', 'success_complete'], profile={"forever": 0.45, "never": 0.3, "window": 0.5, "nested": 0.3},
+    "C09": RProp("C09", 2, [52, 51, 111, 41], oracles=['no_start_after_exit', 'success_complete', 'window', 'reqs_first', 'eager', 'jobs_over'], profile={"forever": 0.45, "never": 0.3, "window": 0.5, "nested": 0.3},
                  rule="C09: at the wake that completes the non-forever jobs only forever jobs are pending and all are "
                       "cancelled there; none starts later; nothing below a finished run is live. Non-trivial = at least one "
                       "forever job.",
@@ -298,7 +298,7 @@ PROPS = {
                  rule="C10: a nested scheduler starts under the job rules (chk01, chk_nostart, parent window at level 1) and "
                       "its verdict / bubbling exception identity is classified by chk_end. Non-trivial = nesting depth >= 2.",
                  nontrivial=has_nested, max_jobs=14),
-    "C11": RProp("C11", 3, [111, 51], oracles=['handlers_over'], profile={"nested": 0.45, "timeout": 0.7, "cdur": 0.5, "sdur": 0.6, "never": 0.25, "crit": 0.4, "exc": 0.4},
+    "C11": RProp("C11", 3, [111, 51], oracles=['handlers_over', 'jobs_over'], profile={"nested": 0.45, "timeout": 0.7, "cdur": 0.5, "sdur": 0.6, "never": 0.25, "crit": 0.4, "exc": 0.4},
                  rule="C11: at every announced end of a run nothing below it is live (monitor chk_over); acceptance at level 3 "
                       "must end in a terminal model state; run-time side condition: after run() returned the loop is kept "
                       "running for a grace period, no event may be logged and no task may be left. Non-trivial = nested "
